@@ -379,7 +379,9 @@ pub struct World {
 impl World {
     pub fn new(cfg: AuthCfg, disc: Disc, verification_enabled: Option<bool>) -> World {
         let rig = Rig::new(disc, UvOutcome::Check { presence: true, verification: true }, verification_enabled);
-        let client = rig.client(cfg);
+        // half of the worlds allow insecure localhost (which concerns the literal host `localhost` only:
+        // names below it are ordinary hosts)
+        let client = rig.client_with(cfg, crate::collab::RecTld::default_list(rig.log.clone()), cfg.hmac_mc);
         // about a third of the generated configurations (a function of the configuration, so that
         // replays agree)
         let reconfigure = matches!(cfg.id_len, Some(n) if n % 3 == 0) || (cfg.id_len.is_none() && cfg.counters && cfg.hmac_mc);
@@ -787,6 +789,8 @@ pub const RPS: &[(&str, &[&str])] = &[
     ("shop.example.co.uk", &["shop.example.co.uk", "eu.shop.example.co.uk"]),
     // IDN: the url crate keeps hosts in punycode, which is also the origin's serialisation
     ("xn--mnchen-3ya.de", &["xn--mnchen-3ya.de", "www.xn--mnchen-3ya.de"]),
+    // a development host below `localhost` (not the literal host `localhost`)
+    ("app.localhost", &["app.localhost", "shop.app.localhost"]),
 ];
 
 pub fn gen_origin(rng: &mut Rng) -> (OriginSpec, Option<String>) {
